@@ -116,13 +116,18 @@ fn matrix_part(out: &mut BTreeMap<String, String>) {
 
 fn prover_part<H: ElementHasher<BaseField = f64::BaseElement> + Sync + Send>(name: &str, out: &mut BTreeMap<String, String>, ns: &[usize]) {
     type B = f64::BaseElement;
-    for &n in ns {
+    // (the constraint-evaluation domain is trace length x 2 for these shapes: 4096 is the first length evaluated in fragments)
+    // every length with a short periodic cycle; the lengths whose constraint-evaluation domain is cut into fragments (>= 8192
+    // rows) also with a cycle of half the trace length on a second column: longer than a fragment for every pool of 3 or more
+    let variants: Vec<(usize, bool)> = ns.iter().flat_map(|&n| if n >= 2048 { vec![(n, false), (n, true)] } else { vec![(n, false)] }).collect();
+    for (n, long_cycle) in variants {
+        let tag = if long_cycle { format!("{n}-cycle{}", n / 2) } else { format!("{n}") };
         let shape = Shape {
             n,
             width: 3,
             degs: vec![1, 2, 3],
-            periodic: vec![8],
-            pcol: vec![-1, 0, -1],
+            periodic: if long_cycle { vec![8, n / 2] } else { vec![8] },
+            pcol: if long_cycle { vec![1, 0, -1] } else { vec![-1, 0, -1] },
             asserts: vec![
                 AsrSpec { kind: "single".into(), col: 0, first: 0, stride: 0, count: 1 },
                 AsrSpec { kind: "sequence".into(), col: 2, first: 1, stride: 2, count: n / 2 },
@@ -165,11 +170,11 @@ fn prover_part<H: ElementHasher<BaseField = f64::BaseElement> + Sync + Send>(nam
         let prover = ShapeProver::<B, H, DefaultRandomCoin<H>> { options: crate::stark::options_of(&sc), shape: shape.clone(), claim: None, aux_corrupt: None, lde_cheat: None, comp_cheat: false, _p: PhantomData };
         let proof: Proof = prover.prove(crate::shape::ShapeTrace::new(&shape, cols)).unwrap();
         // deterministic parts: all commitments (trace, constraint, FRI layers, remainder) and the out-of-domain frame
-        out.insert(format!("prover/{name}/{n}/commitments"), dig(&proof.commitments.to_bytes()));
-        out.insert(format!("prover/{name}/{n}/ood_frame"), dig(&proof.ood_frame.to_bytes()));
-        out.insert(format!("prover/{name}/{n}/context"), dig(&proof.context.to_bytes()));
+        out.insert(format!("prover/{name}/{tag}/commitments"), dig(&proof.commitments.to_bytes()));
+        out.insert(format!("prover/{name}/{tag}/ood_frame"), dig(&proof.ood_frame.to_bytes()));
+        out.insert(format!("prover/{name}/{tag}/context"), dig(&proof.context.to_bytes()));
         let ok = verify_with::<B, H, DefaultRandomCoin<H>>(proof, inputs).is_ok();
-        out.insert(format!("prover/{name}/{n}/verifies"), format!("{ok}"));
+        out.insert(format!("prover/{name}/{tag}/verifies"), format!("{ok}"));
     }
 }
 
@@ -192,6 +197,17 @@ pub fn main(args: &[String]) -> i32 {
             let root = *MerkleTree::<H>::new(leaves).unwrap().root();
             out.insert(format!("merkle/build_merkle_nodes/{n}"), dig(&root.to_bytes()));
         }
+        // wide, short matrices: the row-major LDE is transposed in 2 * next_pow2(threads) batches once it has 1024 cells, which
+        // can be more batches than it has rows
+        for (n, cols, blowup) in [(8usize, 136usize, 8usize), (8, 255, 4), (16, 130, 4), (16, 60, 8)] {
+            type B = f64::BaseElement;
+            let mut rng = Rng(0x99);
+            let polys: Vec<Vec<B>> = (0..cols).map(|_| (0..n).map(|_| B::from(rng.next() as u32)).collect()).collect();
+            let cm = ColMatrix::new(polys);
+            let domain = StarkDomain::from_twiddles(fft::get_twiddles::<B>(n), blowup, B::GENERATOR);
+            let rm = RowMatrix::<B>::evaluate_polys_over::<8>(&cm, &domain);
+            out.insert(format!("matrix/row_lde/{n}x{cols}x{blowup}"), dig(&elems_bytes(rm.data())));
+        }
         println!("{}", json!({"concurrent": cfg!(feature = "concurrent"), "threads": std::env::var("RAYON_NUM_THREADS").unwrap_or_default(), "results": out}));
         return 0;
     }
@@ -204,7 +220,7 @@ pub fn main(args: &[String]) -> i32 {
     merkle_part::<Blake3_256<f64::BaseElement>>("blake3_256", &mut out, &msizes);
     merkle_part::<Rp64_256>("rp64_256", &mut out, if thorough { &msizes } else { &msizes[1..3] });
     matrix_part(&mut out);
-    prover_part::<Blake3_256<f64::BaseElement>>("blake3_256", &mut out, if thorough { &[512, 1024, 4096] } else { &[512, 2048] });
+    prover_part::<Blake3_256<f64::BaseElement>>("blake3_256", &mut out, if thorough { &[512, 1024, 2048, 4096, 8192] } else { &[512, 2048, 4096] });
     println!("{}", json!({"concurrent": cfg!(feature = "concurrent"), "threads": std::env::var("RAYON_NUM_THREADS").unwrap_or_default(), "results": out}));
     0
 }
